@@ -301,6 +301,7 @@ func e2eInner(t *testing.T) {
 	// a second address is defended the way RFC 5227 2.6 recommends: the owner's ARP replies go to the link-layer broadcast address
 	const claimed2 = claimed + 1
 	var claimed2At int64
+	var lookFirst time.Time // first ARP request of the client's current look-up of the server
 	go tap.run(func(f e2eFrame) {
 		if f.outgoing && len(f.b) >= 42 && f.b[12] == 0x08 && f.b[13] == 0x06 && binary.BigEndian.Uint16(f.b[20:]) == 1 &&
 			binary.BigEndian.Uint32(f.b[38:]) == claimed2 {
@@ -329,6 +330,14 @@ func e2eInner(t *testing.T) {
 		// the kernel does not answer an ARP request whose sender address is one of its own, so the observer answers for the server
 		if !f.outgoing && len(f.b) >= 42 && f.b[12] == 0x08 && f.b[13] == 0x06 && binary.BigEndian.Uint16(f.b[20:]) == 1 &&
 			binary.BigEndian.Uint32(f.b[38:]) == srvIP && binary.BigEndian.Uint32(f.b[28:]) != 0 {
+			// (thorough tier: a server that is slow to answer - only the request that comes more than 700 ms after the first of a
+			// look-up, the last of its five, gets the answer: the REQUEST still goes out once, not twice)
+			if f.t.Sub(lookFirst) > 2*time.Second {
+				lookFirst = f.t
+			}
+			if os.Getenv("VERIF_TIER") == "thorough" && f.t.Sub(lookFirst) < 720*time.Millisecond {
+				return
+			}
 			rep := make([]byte, 28)
 			copy(rep, []byte{0, 1, 8, 0, 6, 4, 0, 2})
 			copy(rep[8:14], srvMAC)
@@ -990,6 +999,19 @@ func e2eInner(t *testing.T) {
 				bad("c16", "e2e-client-frame", "renewing REQUEST sent to %s / %s from %s; it goes by unicast from the leased address to the server (%s / %s)", net.HardwareAddr(f.b[0:6]), ip4(rp.dst), ip4(rp.src), srvMAC, ip4(srvIP))
 			}
 			c.add(1610, "e2e-client-renew", true, args(L{2, uint64(rp.msg.ciaddr), uint64(srvIP)}, B(cliMAC), B(f.b[14:])), args(L{1}))
+			// the look-up took 800 ms (see the observer's ARP answers): the REQUEST is sent once now, the next one 700 ms later at the earliest
+			time.Sleep(1500 * time.Millisecond)
+			var prevT time.Time
+			for _, g := range tap.snapshot()[mark:] {
+				if !g.outgoing && len(g.b) > 14+28 && g.b[12] == 0x08 && g.b[13] == 0 && bytes.Equal(g.b[6:12], cliMAC) {
+					if rq := parseReply(g.b[14:]); rq.ok && rq.typ == 3 && rq.msg.xid == rp.msg.xid {
+						if !prevT.IsZero() && g.t.Sub(prevT) < 700*time.Millisecond {
+							bad("c16", "e2e-retx-gap", "renewing REQUEST (xid %08x) sent again %v after the previous transmission (the look-up of the server had taken 800 ms); retransmissions are at least 700 ms apart", rq.msg.xid, g.t.Sub(prevT))
+						}
+						prevT = g.t
+					}
+				}
+			}
 			if af, arp, ok := waitFor(f.t.Add(4*time.Second), func(g e2eFrame, r wreply) bool { return g.outgoing && r.typ == 5 && r.msg.xid == rp.msg.xid }); ok {
 				t0 = af.t
 				x := arp
